@@ -314,12 +314,20 @@ func Run(p Property, opt Options) int {
 	// named in DESIGN.md 2.6 were driven by this run's in-process cases.  Evidence only.
 	if verifhook.Enabled && !isolatedRun {
 		hk := map[string]uint64{}
+		var zero []string
 		for k, v := range verifhook.Snapshot() {
 			if v > 0 {
 				hk[k] = v
+			} else {
+				zero = append(zero, k)
 			}
 		}
+		sort.Strings(zero)
 		ev.extra["hook_events"] = hk
+		if len(hk) > 0 {
+			// only meaningful for the properties that run the instrumented JPEG 2000 / HTJ2K code
+			ev.extra["hook_events_never_hit"] = zero
+		}
 	}
 	if fin, ok := p.(Finisher); ok {
 		fin.Finish(ev.feat, ev.extra)
